@@ -156,6 +156,9 @@ pub fn run(outdir: &str, seed: u64, thorough: bool) -> serde_json::Value {
                 "WITH c AS (SELECT t.age AS a, t.id AS b FROM users AS t) SELECT c.a + 1 AS v FROM c INTERSECT SELECT c.b + 2 AS v FROM c",
                 "WITH c AS (SELECT t.age AS a, t.id AS b FROM users AS t) SELECT x.a AS a, y.b AS b FROM c AS x JOIN c AS y ON x.b = y.a",
                 "WITH c AS (SELECT t.age AS a, t.id AS b FROM users AS t), d AS (SELECT c.a AS v FROM c UNION SELECT c.b AS v FROM c) SELECT d.v AS v FROM d UNION ALL SELECT c.a + c.b AS v FROM c",
+                // float constants that need all 17 significant digits, very large and very small
+                "SELECT 30000000000000004.0 AS a, 1.2345678901234567e-11 AS b, t.income * 12345678901.234567 AS c FROM users AS t WHERE t.income < 98765432109.87654",
+                "SELECT t.amount + 0.30000000000000004 AS a, t.amount * 1.0000000000000002e15 AS b, t.amount / 7.000000000000001e-12 AS c FROM orders AS t",
                 // CASE with several WHEN branches whose conditions overlap (the first true branch wins), nested in ELSE and in THEN
                 "SELECT CASE WHEN t.age > 60 THEN 'high' WHEN t.age > 30 THEN 'mid' WHEN t.age > 0 THEN 'low' ELSE 'none' END AS k, t.id AS i FROM users AS t",
                 "SELECT CASE WHEN t.amount > 400 THEN 3 WHEN t.amount > 100 THEN 2 WHEN t.amount >= 0 THEN 1 ELSE 0 END AS k, t.id AS i FROM orders AS t",
